@@ -375,6 +375,28 @@ impl ReceiveChannelReliable {
     }
 }
 
+#[cfg(feature = "verif")]
+impl SendChannelReliable {
+    pub fn verif_unacked_ids(&self) -> Vec<u64> {
+        self.unacked_messages.keys().copied().collect()
+    }
+
+    pub fn verif_set_next_message_id(&mut self, id: u64) {
+        self.next_reliable_message_id = id;
+    }
+}
+
+#[cfg(feature = "verif")]
+impl ReceiveChannelReliable {
+    pub fn verif_memory_usage(&self) -> usize {
+        self.memory_usage_bytes
+    }
+
+    pub fn verif_set_oldest_pending_message_id(&mut self, id: u64) {
+        self.oldest_pending_message_id = id;
+    }
+}
+
 #[cfg(test)]
 mod tests {
     use octets::OctetsMut;
